@@ -24,6 +24,7 @@ CONSTANTS
 CHECK_DEADLOCK FALSE
 """
 LZM = "SPECIFICATION Spec\nCONSTANTS\n Threads = {{t1, t2}}\n Ids = {{1, 2}}\n WithLock = {lock}\nINVARIANT IdentityStable\nCHECK_DEADLOCK FALSE\n"
+LZT = ("SPECIFICATION Spec\nCONSTANTS\n Threads = {{{threads}}}\n NTables = 4\n FlagLast = {last}\n{props}CHECK_DEADLOCK FALSE\n")
 LRA = "SPECIFICATION Spec\nCONSTANTS\n Threads = {t1, t2}\n Keys = {1, 2, 3}\n Size = 2\n NOps = 2\nINVARIANT BoundedSize\nINVARIANT ReturnsCachedValue\nCHECK_DEADLOCK FALSE\n"
 
 
@@ -307,6 +308,46 @@ def threaded_events(ctx: Ctx, rnd: random.Random, q: bool) -> list:
                                                heb[i].get_days_in_month(y, 8), heb[i].get_days_in_month(y, 9)))
                    for i, y, v in results)
         evs.append({"op": "thr", "what": "hebrew_year_cache", "all_pure": pure, "identity_stable": True, "hung": bool(state.get("hung")), "n": len(results)})
+    # schedules from the lazy-tables model (the adversarial, flag-first variant, so that the orders that would expose a reader
+    # running ahead of the initialiser are among them), enforced on a fresh format info shared by the threads
+    from pyoda_time._compatibility._culture_info import CultureInfo as _CI
+    from pyoda_time.globalization._pyoda_format_info import _PyodaFormatInfo
+
+    files_fi = ("pyoda_time/globalization/_pyoda_format_info.py",)
+    lbehs = _behaviours(ctx, "MC_LazyTables", LZT.format(threads="t1, t2", last="FALSE", props=""), 40 if q else 400, 30, ctx.seed + 7, "lzt")
+    for b in lbehs:
+        sched = [str(x) for x in b.get("sched", [])]
+        names = sorted(set(sched)) or ["t1", "t2"]
+        cu = _CI(rnd.choice(["fr-FR", "ru-RU", "pl-PL", "es-CO", "en-US"]))
+        want_fi = _PyodaFormatInfo(cu)
+        want = (list(want_fi.long_month_names), list(want_fi.short_month_names), list(want_fi.long_month_genitive_names),
+                list(want_fi.short_month_genitive_names), list(want_fi.long_day_names), list(want_fi.short_day_names))
+        fi = _PyodaFormatInfo(cu)
+        out = []
+        lock = threading.Lock()
+
+        def fbody(tn, fi=fi, out=out, lock=lock):
+            def fn(s):
+                which = rnd.sample(range(6), 3)
+                try:
+                    got = {}
+                    for w in which:
+                        got[w] = list([fi.long_month_names, fi.short_month_names, fi.long_month_genitive_names, fi.short_month_genitive_names,
+                                       fi.long_day_names, fi.short_day_names][w]) if False else list(
+                            getattr(fi, ["long_month_names", "short_month_names", "long_month_genitive_names", "short_month_genitive_names",
+                                         "long_day_names", "short_day_names"][w]))
+                    with lock:
+                        out.append(("ok", got))
+                except Exception as ex:  # noqa: BLE001
+                    with lock:
+                        out.append(("exc", type(ex).__name__))
+            return fn
+
+        sch = LineScheduler(files_fi, stall_s=0.02)
+        order = [names.index(t) for t in sched if t in names] + [rnd.randrange(len(names)) for _ in range(30)]
+        hung = sch.run([fbody(tn) for tn in names], order)
+        pure = all(o[0] == "ok" and all(v == want[w] for w, v in o[1].items()) for o in out)
+        evs.append({"op": "thr", "what": "format_info_name_tables", "all_pure": pure, "identity_stable": True, "hung": bool(hung), "n": len(out)})
     # schedules from the lazy-zone-map model, on a fresh provider over the real data
     raw = open("/dev/null", "rb")
     raw.close()
@@ -339,6 +380,86 @@ def threaded_events(ctx: Ctx, rnd: random.Random, q: bool) -> list:
         later = provider[zid]
         evs.append({"op": "thr", "what": "provider_map", "all_pure": all(z.id == zid for z in got), "hung": bool(hung),
                     "identity_stable": all(z is later for z in got), "n": len(got)})
+    # free-running histories: 16 threads hammering the same shared objects with colliding keys (no schedule is enforced: the
+    # verdict is only ever "an answer differed from the pure function / two lookups gave different objects", which no
+    # scheduling accident can fake)
+    import sys as _sys
+
+    from pyoda_time._compatibility._culture_info import CultureInfo
+    from pyoda_time.text import LocalDatePattern
+
+    old_si = _sys.getswitchinterval()
+    _sys.setswitchinterval(1e-6)
+    try:
+        for rep in range(2 if q else 12):
+            cal2 = CalendarSystem.for_id(rnd.choice(["Julian", "Coptic", "Persian Simple", "Hijri Civil-Indian", "Hebrew Civil", "Hebrew Scriptural"]))
+            calc2 = cal2._year_month_day_calculator
+            shared_zone = DateTimeZoneProviders.tzdb[rnd.choice(zids)]
+            inner2 = getattr(shared_zone, "_CachedDateTimeZone__time_zone", None)
+            fresh2 = _CachedDateTimeZone._for_zone(inner2)
+            provider2 = DateTimeZoneCache(source)
+            ro = [CultureInfo.read_only(CultureInfo(n)) for n in ("fr-FR", "de-DE", "ja-JP", "ar-EG")]
+            probe = LocalDate(2024, 2, 29)
+            bad, idents, hung_any = [], {}, False
+            lk = threading.Lock()
+            ybase = rnd.randint(max(cal2.min_year + 3, 5), 1000)
+            dbase = rnd.randint(-10000, 12000)
+
+            def worker(seed2, cal2=cal2, calc2=calc2, fresh2=fresh2, inner2=inner2, provider2=provider2, ro=ro, bad=bad, idents=idents, lk=lk):
+                r2 = random.Random(seed2)
+                for _ in range(150 if q else 600):
+                    c2 = r2.random()
+                    try:
+                        if c2 < 0.35:
+                            y = ybase + r2.choice([0, 1]) + 1024 * r2.randrange(0, min(8, (cal2.max_year - ybase - 2) // 1024 + 1))
+                            got = (cal2.get_days_in_year(y), LocalDate(y, 1, 1, cal2)._days_since_epoch)
+                            want = None
+                            with lk:
+                                idents.setdefault(("y", y), got)
+                                want = idents[("y", y)]
+                            if got != want:
+                                bad.append(("year", y, got, want))
+                        elif c2 < 0.7:
+                            t = Instant._ctor(days=dbase + 32 * r2.choice([0, 1]) + 512 * 32 * r2.randrange(-3, 4), nano_of_day=r2.randrange(86400) * 10**9)
+                            iv = fresh2.get_zone_interval(t)
+                            if t not in iv or iv != inner2.get_zone_interval(t):
+                                bad.append(("zone", str(t)))
+                        elif c2 < 0.85:
+                            zid2 = r2.choice(ids)
+                            z2 = provider2[zid2]
+                            with lk:
+                                first = idents.setdefault(("z", zid2), z2)
+                            if z2 is not first or z2.id != zid2:
+                                bad.append(("provider", zid2))
+                        else:
+                            cu = r2.choice(ro)
+                            txt = LocalDatePattern.create("D", cu).format(probe)
+                            with lk:
+                                first = idents.setdefault(("f", cu.name), txt)
+                            if txt != first:
+                                bad.append(("format", cu.name))
+                    except Exception as ex:  # noqa: BLE001
+                        import traceback as _tb
+
+                        fr = _tb.extract_tb(ex.__traceback__)[-1]
+                        bad.append(("exc", type(ex).__name__, str(ex)[:120], f"{fr.filename.split('/')[-1]}:{fr.lineno}"))
+
+            ths = [threading.Thread(target=worker, args=(rnd.randrange(10**9),), daemon=True) for _ in range(16)]
+            for t_ in ths:
+                t_.start()
+            for t_ in ths:
+                t_.join(60)
+                hung_any = hung_any or t_.is_alive()
+            # the shared year answers must also be the cold ones
+            for (kind, key), got in list(idents.items()):
+                if kind == "y":
+                    want = cold(calc2, lambda key=key: (cal2.get_days_in_year(key), LocalDate(key, 1, 1, cal2)._days_since_epoch))
+                    if got != want:
+                        bad.append(("year_vs_cold", key))
+            evs.append({"op": "thr", "what": "free_running_16_threads", "all_pure": not [b for b in bad if b[0] != "provider"],
+                        "identity_stable": not [b for b in bad if b[0] == "provider"], "hung": hung_any, "n": 16, "bad": [str(b) for b in bad[:5]]})
+    finally:
+        _sys.setswitchinterval(old_si)
     return evs
 
 
@@ -356,6 +477,12 @@ def run(ctx: Ctx):
     ctx.mc("MC_LazyZoneMap", LZM.format(lock="TRUE"), workers=4, tag="lzm_locked")
     ctx.mc_expect_violation("MC_LazyZoneMap", LZM.format(lock="FALSE"), "Invariant IdentityStable is violated", workers=4, tag="lzm_unlocked")
     ctx.mc("MC_LraCache", LRA, workers="auto", tag="lra")
+    lzt_props = "INVARIANT ReadersSeeAllTables\nINVARIANT AssignedOnce\nPROPERTY AllDone\n"
+    ctx.mc("MC_LazyTables", LZT.format(threads="t1, t2, t3", last="TRUE", props="VIEW View\nINVARIANT ReadersSeeAllTables\nINVARIANT AssignedOnce\n"),
+           workers=4, tag="lazy_tables_3")
+    ctx.mc("MC_LazyTables", LZT.format(threads="t1, t2", last="TRUE", props=lzt_props), workers=4, tag="lazy_tables_live")
+    ctx.mc_expect_violation("MC_LazyTables", LZT.format(threads="t1, t2", last="FALSE", props="VIEW View\nINVARIANT ReadersSeeAllTables\n"),
+                            "Invariant ReadersSeeAllTables is violated", workers=4, tag="lazy_tables_flag_first")
     evs = sequential_events(rnd, q)
     tev = threaded_events(ctx, rnd, q)
     allev = evs + tev
